@@ -57,6 +57,75 @@ func runBounds(c *Ctx, rule string, fns []*ssa.Function) int {
 			}
 		}
 	}
+	// postconditions of helpers: for a helper H(…) (int, error) of the analysed
+	// set, "result >= 0" and "result <= len(slice parameter)" are assumed for a
+	// call's result when H proves them at every return whose error is nil and
+	// every use of the result in the caller is behind the test of that error
+	for _, fn := range fns {
+		pc := provers[fn]
+		for _, ci := range callsIn(fn) {
+			call, ok := ci.(*ssa.Call)
+			if !ok {
+				continue
+			}
+			h := staticCallee(call)
+			ph := provers[h]
+			if h == nil || ph == nil || h.Signature.Results().Len() != 2 || !isErrorType(h.Signature.Results().At(1).Type()) || !isIntType(h.Signature.Results().At(0).Type()) {
+				continue
+			}
+			res0, errV := extractOf(call, 0), extractOf(call, 1)
+			if res0 == nil || errV == nil {
+				continue
+			}
+			isNil, _ := nilTestEdges(errV)
+			usesGuarded := len(isNil) > 0
+			for _, ref := range *res0.Referrers() {
+				if _, dbg := ref.(*ssa.DebugRef); dbg {
+					continue
+				}
+				if !guardedByEdges(fn, ref, isNil) {
+					usesGuarded = false
+				}
+			}
+			if !usesGuarded {
+				continue
+			}
+			var succ []*ssa.Return
+			for _, r := range returnsOf(h) {
+				vals := returnValues(r)
+				if len(vals) == 2 && isNilConst(vals[1]) {
+					succ = append(succ, r)
+				}
+			}
+			if len(succ) == 0 {
+				continue
+			}
+			provedAll := func(goal func(r *ssa.Return) lin) bool {
+				for _, r := range succ {
+					g := goal(r)
+					if !ph.prove(g, ph.factsAt(r.Block()), 0) {
+						return false
+					}
+				}
+				return true
+			}
+			atom := pc.val(res0, call.Block())
+			if provedAll(func(r *ssa.Return) lin { return ph.val(returnValues(r)[0], r.Block()) }) {
+				pc.global = append(pc.global, fact{atom, "post-condition of " + fnName(h) + ": result >= 0 when err == nil"})
+			}
+			for pi, par := range h.Params {
+				if _, isSl := par.Type().Underlying().(*types.Slice); !isSl || pi >= len(call.Call.Args) {
+					continue
+				}
+				par := par
+				if provedAll(func(r *ssa.Return) lin {
+					return ph.lenOf(par, r.Block()).sub(ph.val(returnValues(r)[0], r.Block()))
+				}) {
+					pc.global = append(pc.global, fact{pc.lenOf(call.Call.Args[pi], call.Block()).sub(atom), "post-condition of " + fnName(h) + ": result <= len(" + par.Name() + ") when err == nil"})
+				}
+			}
+		}
+	}
 	for _, fn := range fns {
 		p := provers[fn]
 		ord := map[string]int{}
@@ -194,6 +263,25 @@ func propC10(c *Ctx) {
 		if s, _, isE := elemOf(arg); isE && !ok {
 			if f, base := loadedField(s); f == fFields && rootIsParam(base, tParam) {
 				ok = true
+			}
+		}
+		// the type is passed by pointer: t.elem itself, or &t.fields[i]
+		if !ok {
+			a := stripConv(arg)
+			if al, isU := a.(*ssa.UnOp); isU {
+				if cell, isAl := al.X.(*ssa.Alloc); isAl {
+					if cv := cellValue(cell); cv != nil {
+						a = stripConv(cv)
+					}
+				}
+			}
+			if f, base := loadedField(a); f == fElem && rootIsParam(base, tParam) {
+				ok = true
+			}
+			if ia, isIA := a.(*ssa.IndexAddr); isIA {
+				if f, base := loadedField(ia.X); f == fFields && rootIsParam(base, tParam) {
+					ok = true
+				}
 			}
 		}
 		c.Check("R10.3", fmt.Sprintf("scan/recursive-call#%d", nr), call.Pos(), ok, "the type argument is *t.elem or an element of t.fields of the current type: recursion depth is bounded by the declared type, not by the data")
@@ -336,6 +424,42 @@ func propC17(c *Ctx) {
 			}
 		}
 	})
+	// classification by a lookup table indexed with the byte (built at init): what the table
+	// holds is data, not code shape – the accepted set and the digit values are then not decided here
+	byTable := false
+	if len(ranges) == 0 {
+		allInstrs(dec, func(in ssa.Instruction) {
+			var base, idx ssa.Value
+			switch x := in.(type) {
+			case *ssa.IndexAddr:
+				base, idx = x.X, x.Index
+			case *ssa.Index:
+				base, idx = x.X, x.Index
+			}
+			if base == nil {
+				return
+			}
+			if _, isGlobal := stripConv(base).(*ssa.Global); !isGlobal {
+				if u, ok := stripConv(base).(*ssa.UnOp); !ok {
+					return
+				} else if _, isG := u.X.(*ssa.Global); !isG {
+					return
+				}
+			}
+			// indexed by a byte of the token
+			iv := stripNum(idx)
+			switch y := iv.(type) {
+			case *ssa.Index:
+				if stripConv(y.X) == ssa.Value(dec.Params[0]) {
+					byTable = true
+				}
+			case *ssa.Lookup:
+				if stripConv(y.X) == ssa.Value(dec.Params[0]) {
+					byTable = true
+				}
+			}
+		})
+	}
 	want := map[rng]bool{{'0', '9'}: true, {'a', 'f'}: true, {'A', 'F'}: true}
 	okR := len(ranges) == 3
 	for _, r := range ranges {
@@ -343,7 +467,11 @@ func propC17(c *Ctx) {
 			okR = false
 		}
 	}
-	c.Check("R17.3", "decode/accepted-ranges", dec.Pos(), okR, fmt.Sprintf("accepted byte ranges %v (want 0-9, a-f, A-F)", ranges))
+	if byTable {
+		c.OK("R17.3", "decode/accepted-ranges", dec.Pos(), "digits are classified by a lookup table built at init: the accepted set is data and is not decided by this rule")
+	} else {
+		c.Check("R17.3", "decode/accepted-ranges", dec.Pos(), okR, fmt.Sprintf("accepted byte ranges %v (want 0-9, a-f, A-F)", ranges))
+	}
 	okErr := false
 	for _, r := range returnsOf(dec) {
 		vals := returnValues(r)
@@ -395,7 +523,17 @@ func propC17(c *Ctx) {
 			}
 		})
 	}
-	c.Check("R17.3", "decode/non-hex-is-error", dec.Pos(), okErr, "a byte outside the three ranges returns a non-nil error and contributes no digit")
+	if byTable {
+		hasErr := false
+		for _, r := range returnsOf(dec) {
+			if definitelyNonNilError(returnValues(r)[1], nil) {
+				hasErr = true
+			}
+		}
+		c.Check("R17.3", "decode/non-hex-is-error", dec.Pos(), hasErr, "table classification: an error return exists; which bytes take it is data (not decided)")
+	} else {
+		c.Check("R17.3", "decode/non-hex-is-error", dec.Pos(), okErr, "a byte outside the three ranges returns a non-nil error and contributes no digit")
+	}
 	// the value folded in for a digit is its numeric value: proven within
 	// [0, 15] on every incoming edge from the range tests that guard it (byte
 	// arithmetic wraps: `c - 'a' + 10` for an upper-case digit is 234…)
@@ -448,6 +586,10 @@ func propC17(c *Ctx) {
 					}
 				}
 			}
+			if byTable && !good {
+				c.OK("R17.3", fmt.Sprintf("decode/digit-value#%d-in-0..15", nFold), or.Pos(), "the digit value comes from a lookup table: data, not decided by this rule")
+				return
+			}
 			c.Check("R17.3", fmt.Sprintf("decode/digit-value#%d-in-0..15", nFold), or.Pos(), good, "the value folded in for a digit is proven within [0, 15] from the range test of its arm "+where)
 		})
 	}
@@ -473,6 +615,34 @@ func propC17(c *Ctx) {
 				doneEdges = append(doneEdges, f...)
 			}
 		})
+		// … or an index loop over [0, len(token))
+		if !whole {
+			aff := &affEnv{}
+			allInstrs(dec, func(in ssa.Instruction) {
+				var sx, si ssa.Value
+				switch x := in.(type) {
+				case *ssa.Index:
+					sx, si = x.X, x.Index
+				case *ssa.Lookup:
+					sx, si = x.X, x.Index
+				}
+				if sx == nil || stripConv(sx) != ssa.Value(dec.Params[0]) {
+					return
+				}
+				lo, hi, enter, _, ok := aff.loopRange(si)
+				if !ok || !linEq(lo, konst(0)) || !linEq(hi, aff.lenOf(dec.Params[0], 0)) {
+					return
+				}
+				whole = true
+				for _, e := range enter {
+					for _, s2 := range e.From.Succs {
+						if s2 != e.To {
+							doneEdges = append(doneEdges, Edge{e.From, s2})
+						}
+					}
+				}
+			})
+		}
 		okExit := whole
 		for _, r := range returnsOf(dec) {
 			vals := returnValues(r)
